@@ -201,35 +201,8 @@ theorem liteapi_functions_covered :
 
 /-! ### The generated Go bindings (translator X7, `Gen.tlBindings`) -/
 
-open Tongo.Tl.Bind in
-/-- **steps_eq_schema** (proved once, for every schema `S` and every bindings value `B` the matcher accepts): for a type
-`ty` whose references resolve (`tyRefsOk`) and every value `v` the schema encodes to `bs`, the Go value `rep S ty v` that
-carries `v` in the generated structs is (1) marshalled by the generated `MarshalTL` step sequences to exactly `bs` and
-(2) read back by the generated `UnmarshalTL` step sequences from `bs` followed by anything, leaving exactly the rest —
-which is also what the schema decoder returns (3). -/
-theorem steps_eq_schema (S : Schema) (B : Bindings) (hwf : WFSchema S) (hA : agreeAll S B = true) (ty : Ty) (v : Val)
-    (bs : Bytes) (fuel : Nat) (hty : ty ≠ .tru) (hrefs : tyRefsOk S B ty = true) (henc : encode S ty v = some bs)
-    (hfuel : 3 * v.depth ≤ fuel) :
-    marshalGo B fuel (goTyOf ty) (rep S ty v) = some bs ∧
-    (∀ rest, unmarshalGo B fuel (goTyOf ty) (bs ++ rest) = .ok (rep S ty v, rest)) ∧
-    (∀ rest, decode S fuel ty (bs ++ rest) = .ok (v, rest)) :=
-  ⟨(marshal_all S B (typesAgree_of_agreeAll hA)).1 ty v bs fuel hty hrefs henc hfuel,
-   fun rest => (unmarshal_all S B hwf (typesAgree_of_agreeAll hA)).1 ty v bs rest fuel hty hrefs henc hfuel,
-   fun rest => C09.tl_decode_encode S hwf ty v bs rest fuel henc (by omega)⟩
-
-open Tongo.Tl.Bind in
-/-- the same at the level of ONE generated struct: the `MarshalTL` body of the struct `<Ctor>C` of a single-constructor
-type writes `encodeFields` of that constructor, its `UnmarshalTL` body (started on the zero struct) reads it back -/
-theorem method_steps_eq_schema (S : Schema) (B : Bindings) (hwf : WFSchema S) (hA : agreeAll S B = true) (d : Decl)
-    (hd : d ∈ S.types) (h1 : (S.ctorsOf d.result).length = 1) (vs : List Val) (bs : Bytes) (fuel : Nat)
-    (henc : encodeFields S d.fields [] vs = some bs) (hfuel : 3 * depthList vs + 1 ≤ fuel) :
-    ∃ m, B.find (camelGo d.ctor ++ "C") = some (.simple m) ∧
-      runMarshal B fuel m.fields m.marshal (repFields S d.fields vs) = some bs ∧
-      ∀ rest, runUnmarshal B fuel m.fields m.unmarshal (zeroStruct m.fields) (bs ++ rest)
-        = .ok (repFields S d.fields vs, rest) := by
-  obtain ⟨m, hm, hag⟩ := bare_binding (typesAgree_of_agreeAll hA) hd h1
-  exact ⟨m, hm, method_marshal (typesAgree_of_agreeAll hA) hag vs bs fuel henc hfuel,
-    fun rest => method_unmarshal hwf (typesAgree_of_agreeAll hA) hag vs bs rest fuel henc hfuel⟩
+/- `steps_eq_schema` and `method_steps_eq_schema` (generic in the schema and in the extracted bindings) are stated in
+TongoProofs/C09.lean; here they are instantiated at the regenerated schema and the regenerated bindings. -/
 
 /-- regenerated obligation (75 kernel-decided obligations, one per type and per function of lite_api.tl): the bindings
 extracted from the current generated.go match the schema of the current lite_api.tl -/
@@ -242,7 +215,7 @@ theorem liteapi_steps_eq_schema (ty : Ty) (v : Val) (bs : Bytes) (fuel : Nat) (h
     Bind.marshalGo tlBindings fuel (Bind.goTyOf ty) (Bind.rep liteApi ty v) = some bs ∧
     (∀ rest, Bind.unmarshalGo tlBindings fuel (Bind.goTyOf ty) (bs ++ rest) = .ok (Bind.rep liteApi ty v, rest)) ∧
     (∀ rest, decode liteApi fuel ty (bs ++ rest) = .ok (v, rest)) :=
-  steps_eq_schema liteApi tlBindings wf_liteapi bindings_agree ty v bs fuel hty hrefs henc hfuel
+  C09.steps_eq_schema liteApi tlBindings wf_liteapi bindings_agree ty v bs fuel hty hrefs henc hfuel
 
 /-- **request wrappers**: for every function `f` of lite_api.tl, the payload the generated method
 `(*Client).<CamelCase f>` hands to `liteServerRequest` — its request-id literal, then `MarshalTL` of its request struct —
